@@ -24,6 +24,8 @@ func init() {
 			"ExecutionEngine.Execute reaches planning only through the success edges of normalization (when needed), then of ValidateForSchema (err == nil ∧ Valid), and reaches the resolver only when planning reported no error; ValidateForSchema validates with DefaultOperationValidator and the validator reports Invalid whenever the report has errors. " +
 			"It does not decide accept ⇔ spec-valid for all documents (that is the rules' own logic).",
 		Mutants: []Mutant{
+			{Name: "the Int range check looks at the digits only (reverts the F88 fix)", File: "v2/pkg/ast/ast_val_int_value.go", Rule: "C04-R16", Key: "Document.IntValueValidInt32/IntValue-digits-read-with-the-sign",
+				Old: "\tif d.IntValues[ref].Negative {\n\t\t// Raw holds the digits without the sign", New: "\tif false {\n\t\t// Raw holds the digits without the sign"},
 			{Name: "composite fields with the same response name are not compared by name and arguments (reverts part of the F86 fix)", File: "v2/pkg/astvalidation/operation_rule_field_selection_merging.go", Rule: "C04-R15", Key: "fieldSelectionMergingVisitor.EnterField/composite-arm-reads-arguments",
 				Old: "\t\t\t\tif !bytes.Equal(f.operation.FieldNameBytes(left), fieldName) ||\n\t\t\t\t\t!f.operation.ArgumentSetsAreEquals(f.operation.FieldArguments(left), f.operation.FieldArguments(ref)) {\n", New: "\t\t\t\tif !bytes.Equal(f.operation.FieldNameBytes(left), fieldName) {\n"},
 			{Name: "the normalizer merges fields without looking at their arguments (reverts part of the F86 fix)", File: "v2/pkg/astnormalization/inline_fragment_selection_merging.go", Rule: "C04-R15", Key: "inlineFragmentSelectionMergeVisitor.fieldsCanMerge/merge-decision-reads-arguments",
@@ -89,6 +91,7 @@ func runC04(r *fw.Run) {
 	defer c04RequiredArgumentsCoverEveryArgumentBearer(r)
 	defer c04VariableUsesFoundAtEveryDepth(r)
 	defer c04MergeDecisionsReadTheArguments(r)
+	defer c04NumberLiteralsAreReadWithTheirSign(r)
 	p := r.Prog
 	pk := p.Pkg("astvalidation")
 	if pk == nil {
@@ -1188,4 +1191,126 @@ func c04MergeDecisionsReadTheArguments(r *fw.Run) {
 	}
 	r.Check(rest, "C04-R15", fi.Name()+"/scalar-arm-reads-arguments", p.Pos(split.End()), "the scalar arm of "+fi.Name()+" reads the arguments of the two fields it compares",
 		"the arm of the field selection merging rule that handles leaf fields never reads field arguments")
+}
+
+// c04NumberLiteralsAreReadWithTheirSign (R16): an Int or Float literal is stored as its digits (Raw) and a separate sign
+// (Negative). A function that interprets, compares, copies or prints the digits without reading the sign cannot tell n
+// from -n (an information argument): the Int range check that looked at the digits only rejected -2147483648, the
+// smallest Int. Rule: in every loaded package, a function that reads the digits of a number literal — the Raw field of
+// ast.IntValue / ast.FloatValue, or an accessor that hands the raw bytes on — also reads the sign of the same literal kind
+// (the Negative field or an accessor of it). Accessors that only hand the raw bytes on (result type ByteSlice or
+// ByteSliceReference, string) from the field itself are the carriers, not readers; their callers are. A carrier over
+// several value kinds (ValueContentBytes: reaches the digits through another carrier) is exempt and its callers are not
+// tracked — they know which kind they hold; that part is not decided.
+func c04NumberLiteralsAreReadWithTheirSign(r *fw.Run) {
+	p := r.Prog
+	r.Rule("C04-R16", "a function that reads the digits (Raw) of an Int or Float literal, directly or through a raw-bytes accessor, also reads the sign (Negative) of that literal kind; accessors that only hand the raw bytes on are carriers")
+	kinds := []string{"IntValue", "FloatValue"}
+	isCarrierResult := func(fn *types.Func) bool {
+		sig := fn.Type().(*types.Signature)
+		if sig.Results().Len() != 1 {
+			return false
+		}
+		if nt, ok := sig.Results().At(0).Type().(*types.Named); ok {
+			return nt.Obj().Name() == "ByteSlice" || nt.Obj().Name() == "ByteSliceReference"
+		}
+		return types.Identical(sig.Results().At(0).Type(), types.Typ[types.String])
+	}
+	// per kind: carriers of the digits and accessors of the sign in package ast (fixed point over direct calls)
+	rawCarrier := map[string]map[*types.Func]bool{}
+	signReader := map[string]map[*types.Func]bool{}
+	for _, k := range kinds {
+		rawCarrier[k] = map[*types.Func]bool{}
+		signReader[k] = map[*types.Func]bool{}
+	}
+	reads := func(fi *fw.FuncInfo, k string) (raw, sign bool, rawAt token.Pos) {
+		info := fi.Info()
+		fw.WalkAll(fi.Decl.Body, func(nd ast.Node) bool {
+			switch x := nd.(type) {
+			case *ast.SelectorExpr:
+				if fw.IsFieldSel(info, x, "ast", k, "Raw") {
+					raw = true
+					if rawAt == token.NoPos {
+						rawAt = x.Pos()
+					}
+				}
+				if fw.IsFieldSel(info, x, "ast", k, "Negative") {
+					sign = true
+				}
+			case *ast.CallExpr:
+				if fn := fw.Callee(info, x); fn != nil {
+					if rawCarrier[k][fn] {
+						raw = true
+						if rawAt == token.NoPos {
+							rawAt = x.Pos()
+						}
+					}
+					if signReader[k][fn] {
+						sign = true
+					}
+				}
+			case *ast.CompositeLit:
+				// a literal of the kind built with both fields is a copy, handled by the field selections on the right-hand sides
+			}
+			return true
+		})
+		return
+	}
+	readsFieldDirectly := func(fi *fw.FuncInfo, k string) bool {
+		found := false
+		info := fi.Info()
+		fw.WalkAll(fi.Decl.Body, func(nd ast.Node) bool {
+			if x, ok := nd.(*ast.SelectorExpr); ok && fw.IsFieldSel(info, x, "ast", k, "Raw") {
+				found = true
+			}
+			return true
+		})
+		return found
+	}
+	for changed := true; changed; {
+		changed = false
+		for _, fi := range p.Funcs("ast") {
+			sig := fi.Obj.Type().(*types.Signature)
+			for _, k := range kinds {
+				raw, sign, _ := reads(fi, k)
+				if raw && !sign && isCarrierResult(fi.Obj) && !rawCarrier[k][fi.Obj] && readsFieldDirectly(fi, k) {
+					rawCarrier[k][fi.Obj] = true
+					changed = true
+				}
+				// an accessor of the sign: returns exactly one bool, reads the sign and not the digits
+				if sign && !raw && sig.Results().Len() == 1 && types.Identical(sig.Results().At(0).Type(), types.Typ[types.Bool]) && !signReader[k][fi.Obj] {
+					signReader[k][fi.Obj] = true
+					changed = true
+				}
+			}
+		}
+	}
+	n, generic := 0, 0
+	for _, path := range p.LoadedPaths() {
+		for _, fi := range p.FuncsOfPath(path) {
+			for _, k := range kinds {
+				if rawCarrier[k][fi.Obj] {
+					continue
+				}
+				raw, sign, at := reads(fi, k)
+				if !raw {
+					continue
+				}
+				if !sign && isCarrierResult(fi.Obj) {
+					// a carrier over several value kinds (ValueContentBytes): its callers know the kind, they are not tracked
+					generic++
+					continue
+				}
+				n++
+				r.Check(sign, "C04-R16", fi.Name()+"/"+k+"-digits-read-with-the-sign", p.Pos(at), fi.Name()+" reads the digits of an "+k+" and its sign",
+					fi.Name()+" reads the digits (Raw) of an "+k+" literal and never its sign (Negative): the function cannot tell n from -n — the Int range check on the digits alone rejects `{ arg(i: -2147483648) }`, the smallest Int, with \"Int cannot represent non 32-bit signed integer value\"")
+			}
+		}
+	}
+	r.Expect("C04-R16", "functions that read the digits of a number literal", n, 10)
+	nc := 0
+	for _, k := range kinds {
+		nc += len(rawCarrier[k])
+	}
+	r.Note("C04-R16: %d raw-bytes carriers, %d carriers over several value kinds (their callers are not tracked), %d readers checked", nc, generic, n)
 }
